@@ -19,6 +19,7 @@ type stackOp struct {
 
 type stackCase struct {
 	Ctor string    `json:"ctor"` // make cap array seq
+	Elem string    `json:"elem,omitempty"` // element type (codec): int any string slice ptr
 	Cap  uint      `json:"cap,omitempty"`
 	Init []int     `json:"init,omitempty"`
 	Ops  []stackOp `json:"ops"`
@@ -61,7 +62,10 @@ func genStackCase(s core.Source) stackCase {
 			c.Init = append(c.Init, int(i)+100)
 		}
 	}
+	c.Elem = core.Pick(s, codecNames, "elem")
 	nops := int(s.Int(1, 40, "nops"))
+	// values repeat (the same value may be on the stack several times) or are all different
+	repeats := s.Choose(2, "repeats") == 0
 	// a "mood" makes long runs of pushes or pops likely, so that full and empty
 	// are reached whatever the capacity
 	next := 1
@@ -82,19 +86,37 @@ func genStackCase(s core.Source) stackCase {
 		}
 		op := stackOp{Kind: k}
 		if k == "push" {
-			op.Val = next
-			next++
+			if repeats {
+				op.Val = s.Choose(8, "val") // 0..5 are the empty-looking values of the "any" element type
+			} else {
+				op.Val = next
+				next++
+			}
 		}
 		c.Ops = append(c.Ops, op)
 	}
 	return c
 }
 
-func execStackCase(c stackCase, _ core.Source) core.Result {
+func execStackCase(c stackCase, s core.Source) core.Result {
+	switch c.Elem {
+	case "any":
+		return execStack(c, cdAny)
+	case "string":
+		return execStack(c, cdString)
+	case "slice":
+		return execStack(c, cdSlice)
+	case "ptr":
+		return execStack(c, cdPtr)
+	}
+	return execStack(c, cdInt)
+}
+
+func execStack[E any](c stackCase, cd codec[E]) core.Result {
 	var res core.Result
-	class := col.Stack[int](lib.Notation())
+	class := col.Stack[E](lib.Notation())
 	def := class.DefaultCapacity()
-	var st, source col.StackLike[int]
+	var st, source col.StackLike[E]
 	var model []int // top first
 	capacity := def
 	panicked, payload := lib.Call(func() {
@@ -105,16 +127,16 @@ func execStackCase(c stackCase, _ core.Source) core.Result {
 			st = class.MakeWithCapacity(c.Cap)
 			capacity = c.Cap
 		case "array":
-			st = class.MakeFromArray(c.Init)
+			st = class.MakeFromArray(encAll(cd, c.Init))
 		case "seq":
-			st = class.MakeFromSequence(col.List[int](lib.Notation()).MakeFromArray(c.Init))
+			st = class.MakeFromSequence(col.List[E](lib.Notation()).MakeFromArray(encAll(cd, c.Init)))
 		case "seq-stack":
-			source = class.MakeFromArray(c.Init)
+			source = class.MakeFromArray(encAll(cd, c.Init))
 			st = class.MakeFromSequence(source)
 		case "seq-stack-cap":
 			source = class.MakeWithCapacity(c.Cap)
 			for i := len(c.Init) - 1; i >= 0; i-- {
-				source.AddValue(c.Init[i])
+				source.AddValue(cd.enc(c.Init[i]))
 			}
 			st = class.MakeFromSequence(source)
 		}
@@ -149,10 +171,10 @@ func execStackCase(c stackCase, _ core.Source) core.Result {
 		if size != len(model) || st.IsEmpty() != (len(model) == 0) {
 			return core.Violate("C13/size", "after %s (step %d): size %d empty %v, model size %d", what, step, size, st.IsEmpty(), len(model))
 		}
-		if arr := st.AsArray(); !lib.EqInts(arr, model) {
+		if arr := decAll(cd, st.AsArray()); !lib.EqInts(arr, model) {
 			return core.Violate("C13/view", "after %s (step %d): AsArray %v, model (top first) %v", what, step, arr, model)
 		}
-		if w := walk(st.GetIterator()); !lib.EqInts(w, model) {
+		if w := decAll(cd, walk(st.GetIterator())); !lib.EqInts(w, model) {
 			return core.Violate("C13/iteration", "after %s (step %d): iteration %v, model (top first) %v", what, step, w, model)
 		}
 		if uint(len(model)) == capacity {
@@ -171,7 +193,7 @@ func execStackCase(c stackCase, _ core.Source) core.Result {
 		switch op.Kind {
 		case "push":
 			full := uint(len(model)) >= capacity
-			p, _ := lib.Call(func() { st.AddValue(op.Val) })
+			p, _ := lib.Call(func() { st.AddValue(cd.enc(op.Val)) })
 			if full && !p {
 				res.Violation = core.Violate("C13/push-on-full-returned", "step %d: AddValue on a full stack (size %d, capacity %d) returned", i, len(model), capacity)
 				return res
@@ -187,7 +209,7 @@ func execStackCase(c stackCase, _ core.Source) core.Result {
 			}
 		case "pop":
 			var got int
-			p, _ := lib.Call(func() { got = st.RemoveTop() })
+			p, _ := lib.Call(func() { got = cd.dec(st.RemoveTop()) })
 			if len(model) == 0 {
 				if !p {
 					res.Violation = core.Violate("C13/pop-on-empty-returned", "step %d: RemoveTop on an empty stack returned %d", i, got)
@@ -218,15 +240,15 @@ func execStackCase(c stackCase, _ core.Source) core.Result {
 	if source != nil {
 		// the stack it was constructed from is a collection of its own: untouched by the history above,
 		// and changing it now must not reach the new stack
-		if arr := source.AsArray(); !lib.EqInts(arr, c.Init) || uint(source.GetSize()) > source.GetCapacity() {
+		if arr := decAll(cd, source.AsArray()); !lib.EqInts(arr, c.Init) || uint(source.GetSize()) > source.GetCapacity() {
 			res.Violation = core.Violate("C13/ctor/shares-source", "operations on a stack made by MakeFromSequence(stack) changed the source stack: %v (size %d, capacity %d), it held %v", arr, source.GetSize(), source.GetCapacity(), c.Init)
 			return res
 		}
-		before := st.AsArray()
+		before := decAll(cd, st.AsArray())
 		lib.Call(func() { source.RemoveTop() })
-		lib.Call(func() { source.AddValue(-1) })
+		lib.Call(func() { source.AddValue(cd.enc(-1)) })
 		source.RemoveAll()
-		if arr := st.AsArray(); !lib.EqInts(arr, before) {
+		if arr := decAll(cd, st.AsArray()); !lib.EqInts(arr, before) {
 			res.Violation = core.Violate("C13/ctor/shares-source", "changing the source stack changed the stack made from it: %v -> %v", before, arr)
 			return res
 		}
@@ -238,7 +260,7 @@ func execStackCase(c stackCase, _ core.Source) core.Result {
 	if reachedEmpty {
 		res.Classes = append(res.Classes, "reached-empty")
 	}
-	res.Classes = append(res.Classes, "ctor-"+c.Ctor)
+	res.Classes = append(res.Classes, "ctor-"+c.Ctor, "elem-"+cd.name)
 	return res
 }
 
@@ -246,11 +268,12 @@ func execStackCase(c stackCase, _ core.Source) core.Result {
 type stackWord struct {
 	Cap  uint   `json:"cap"`
 	Word string `json:"word"` // u = push, o = pop
+	Dup  bool   `json:"dup,omitempty"` // pushed values repeat with period 2
 }
 
 func genStackWord(maxLen int) func(core.Source) stackWord {
 	return func(s core.Source) stackWord {
-		w := stackWord{Cap: uint(1 + s.Choose(3, "cap"))}
+		w := stackWord{Cap: uint(1 + s.Choose(3, "cap")), Dup: s.Choose(2, "dup") == 1}
 		n := s.Choose(maxLen+1, "len")
 		b := make([]byte, n)
 		for i := range b {
@@ -265,7 +288,11 @@ func execStackWord(w stackWord, s core.Source) core.Result {
 	c := stackCase{Ctor: "cap", Cap: w.Cap}
 	for i, ch := range w.Word {
 		if ch == 'u' {
-			c.Ops = append(c.Ops, stackOp{Kind: "push", Val: i + 1})
+			v := i + 1
+			if w.Dup {
+				v = 1 + i%2
+			}
+			c.Ops = append(c.Ops, stackOp{Kind: "push", Val: v})
 		} else {
 			c.Ops = append(c.Ops, stackOp{Kind: "pop"})
 		}
